@@ -176,6 +176,7 @@ func TestVF_C06(t *testing.T) {
 		c.ctx = new(big.Int).SetBytes(rapid.SliceOfN(rapid.Byte(), 1, 32).Draw(rt, "ctx"))
 		c.nonce1 = new(big.Int).SetBytes(rapid.SliceOfN(rapid.Byte(), 1, 10).Draw(rt, "n1"))
 		c.nonce2 = new(big.Int).SetBytes(rapid.SliceOfN(rapid.Byte(), 1, 10).Draw(rt, "n2"))
+		c.nonce2.Add(c.nonce2, bi(2))
 		cfgClass := fmt.Sprintf("blind=%d/keyshare=%v/witness=%v/bits=%d", len(c.blind), c.keyshare, c.witness, c.kp.Bits)
 		det := func(what string) map[string]any { return map[string]any{"config": c.String(), "deviation": what} }
 
@@ -459,6 +460,8 @@ func TestVF_C06(t *testing.T) {
 			return rejectAtUser(what, run.builder, b, run.inAttrs)
 		}
 		if !viaIssuer("msg1.n_2+1", dm1.U, new(big.Int).Add(dm1.Nonce2, bi(1)), iss) ||
+			!viaIssuer("msg1.n_2-1", dm1.U, new(big.Int).Abs(new(big.Int).Sub(dm1.Nonce2, bi(1))), iss) ||
+			!viaIssuer("msg1.n_2*2", dm1.U, new(big.Int).Lsh(dm1.Nonce2, 1), iss) ||
 			!viaIssuer("msg1.U*S", new(big.Int).Mod(new(big.Int).Mul(dm1.U, pk.S), pk.N), dm1.Nonce2, iss) ||
 			!viaIssuer("msg1.U*R0", new(big.Int).Mod(new(big.Int).Mul(dm1.U, pk.R[0]), pk.N), dm1.Nonce2, iss) ||
 			!viaIssuer("issuer-other-context", dm1.U, dm1.Nonce2, NewIssuer(c.kp.Sk, pk, new(big.Int).Add(c.ctx, bi(1)))) {
